@@ -21,7 +21,9 @@
 INT_POOL = [0, 1, -1, 2, 7, 255, 256, 32767, 32768, -32768, -32769, 65535, 65536, 1 << 31, (1 << 31) - 1, -(1 << 31),
             (1 << 53) + 1, (1 << 62), (1 << 63) - 1, -(1 << 63) + 1, 1000003, 123456789012, -987654321]
 FLT_POOL = ["0.5", "1.5", "0.1", "1e300", "1e-320", "9007199254740992.0", "3.0", "2.5e-7", "1e15", "123456.789",
-            "0x1p-1074", "0x1.fffffffffffffp1023", "4.9e-324"]
+            "0x1p-1074", "0x1.fffffffffffffp1023", "4.9e-324",
+            # round 8 (seeded change C13-m10 was missed): literals that overflow to +inf are legitimate float constants
+            "1e999", "0x1p2000", "1e309"]
 FLT_EXPR = ["(-0.0)", "(1/0)", "(-1/0)", "(0/0)", "(0.0)", "(2^53)", "math.pi", "math.huge", "(-math.huge)"]
 
 
